@@ -1058,7 +1058,26 @@ func c33RunCase(cl *vfcCluster, mon *c33Mon, sc c33Script, seed int64, prefix st
 	relocated, failedListed := 0, 0
 	// a graceful departure whose snapshot did not reach the leader is handled as a crash; by then the
 	// departing node has withdrawn its registry records, so nothing can be derived: one root-cause finding
-	explainedLoss := !sc.Crash && !leaderHasSnapshot
+	// (observed, not inferred: the leader announced a best-effort, registry-derived relocation for a graceful departure
+	// and never one from a snapshot)
+	explainedLoss := false
+	if !sc.Crash {
+		derived, fromSnap := 0, 0
+		for _, e := range mon.events(L, "started", addrD, t0) {
+			if e.BestEffort {
+				derived++
+			} else {
+				fromSnap++
+			}
+		}
+		explainedLoss = derived > 0 && fromSnap == 0
+		if explainedLoss {
+			out.count("graceful_departures_the_leader_handled_as_crash", 1)
+		}
+		if !leaderHasSnapshot && fromSnap > 0 {
+			out.count("snapshot_reached_the_leader_after_the_stop_returned", 1)
+		}
+	}
 	var lostExplained []string
 	for name, s := range reloc {
 		nodes, inst := mon.runningOn(name, am)
